@@ -211,7 +211,8 @@ func pruneBuilds(base, keep string) {
 	}
 	sort.Slice(ds, func(i, j int) bool { return ds[i].t.After(ds[j].t) })
 	for i, x := range ds {
-		if i >= 2 {
+		// builds used within the last 45 minutes may belong to a check that is running at the same time
+		if i >= 2 && time.Since(x.t) > 45*time.Minute {
 			os.RemoveAll(filepath.Join(base, x.name))
 		}
 	}
